@@ -665,6 +665,68 @@ def custom_alignments(ctx, rng, n):
                 ctx.event("custom_alignments_checked")
 
 
+def declared_after_extension(ctx):
+    """A structure that is extended through the API after arrays of it were already declared: whatever is declared
+    *afterwards* (members, arrays in one and two dimensions, array typedefs, `T[n]` through the API) is laid out with
+    the structure as it is now -- the same as on a fresh object that saw the final declaration only.  (What was
+    declared before the extension is the open finding K13 and is not judged.)"""
+    import io
+
+    exts = [("uint16", 2), ("uint64", 8), ("uint8", 1), ("int24", 3)]
+    for align in (False, True):
+        for compiled in (True, False):
+            for first in ("uint32 id;", "uint8 k; uint8 m;", "uint16 w; uint8 c[3];"):
+                for ext, _sz in exts:
+                    rng = ctx.rng("after-extension", align, compiled, first, ext)
+                    body = "uint16 n; rec items[2]; rec one; rec grid[2][2]; uint8 t; pair_t p;"
+                    det = {"align": align, "compiled": compiled, "first": first, "ext": ext, "workload": "after-extension"}
+                    ctx.evaluation(("after-extension", align, compiled, first, ext))
+                    ctx.cell("declared-after-extension")
+                    try:
+                        cs = lib.cstruct()
+                        cs.load(f"struct rec {{ {first} }};", align=align, compiled=compiled)
+                        # used before the extension (K13 for these; they must not leak into later declarations)
+                        cs.load(f"typedef rec pair0_t[2]; struct before {{ {body.replace('pair_t', 'pair0_t')} }};", align=align, compiled=compiled)
+                        _ = cs.rec[2], cs.rec[2][2], len(cs.before)
+                        cs.rec.add_field("x", getattr(cs, ext))
+                        cs.load(f"typedef rec pair_t[2]; struct after {{ {body} }};", align=align, compiled=compiled)
+                        ref = lib.cstruct()
+                        ref.load(f"struct rec {{ {first} {ext} x; }}; typedef rec pair_t[2]; struct after {{ {body} }};",
+                                 align=align, compiled=compiled)
+                        ref.load("struct P__ { char pad[sizeof(after)]; uint8 m; };")
+                        cs.load("struct P__ { char pad[sizeof(after)]; uint8 m; };")
+                        n = len(ref.after)
+                        data = bytes(rng.randrange(1, 256) for _ in range(n + 7))
+                        facts, want = {}, {}
+                        for nm, o in (("lib", cs), ("ref", ref)):
+                            d = facts if nm == "lib" else want
+                            A = o.after
+                            st = io.BytesIO(data)
+                            v = A(st)
+                            d["len"] = len(A)
+                            d["offsets"] = [f.offset for f in A.__fields__]
+                            d["sizeof"] = len(o.P__) - 1
+                            d["consumed"] = st.tell()
+                            d["dumped"] = v.dumps().hex()
+                            d["value"] = repr(v)
+                            d["api_array"] = (len(o.rec[2]), len(o.rec[2][2]), len(o.rec[3]), len(o.pair_t))
+                            d["elem"] = len(o.rec)
+                    except Exception as e:  # noqa: BLE001
+                        ctx.violation("after-extension", f"declaration-after-extension-raises:{type(e).__name__}", dict(det, error=lib.exc_sig(e)))
+                        continue
+                    e = want["elem"]
+                    if want["api_array"] != (2 * e, 4 * e, 3 * e, 2 * e) or want["consumed"] != want["len"] or want["sizeof"] != want["len"]:
+                        # the reference itself is inconsistent: nothing to compare with (reported by the general workload)
+                        ctx.event("after_extension_reference_inconsistent")
+                        continue
+                    bad = {k: (facts[k], want[k]) for k in want if facts[k] != want[k]}
+                    if bad:
+                        ctx.violation("after-extension", "declared-after-an-extension:layout-differs-from-the-one-shot-declaration",
+                                      dict(det, differing=repr(bad)[:900]))
+                    else:
+                        ctx.event("after_extension_checked")
+
+
 def run(ctx):
     mixed_modes(ctx, 10 if not ctx.thorough else 150)
     if ctx.shard == 0:
@@ -672,6 +734,8 @@ def run(ctx):
     if ctx.shard == 1:
         sizeof_of_names(ctx)
         sizeof_of_a_name_that_is_also_a_member(ctx)
+    if ctx.shard == 3:
+        declared_after_extension(ctx)
     if ctx.shard % 4 == 2:
         custom_alignments(ctx, ctx.rng("custom-alignments"), 6 if not ctx.thorough else 60)
     offset_gaps(ctx, 6 if not ctx.thorough else 120)
@@ -696,6 +760,10 @@ def replay(ctx, detail):
         return
     if detail.get("workload") == "empty-structures":
         empty_structures(ctx)
+        return
+    if detail.get("workload") == "after-extension":
+        print(detail)
+        declared_after_extension(ctx)
         return
     if detail.get("workload") == "sizeof-of-names":
         print(detail)
